@@ -19,13 +19,79 @@ act_design)) in the encoder, the decoder and Consistency.apply (which walks the 
 steps); complex factors are laid out in act_design order with variables_for_factor(f) variables each, in encoder,
 decoder and Consistency.apply; the per-trial applicability is always asked with the sustain division; variables are
 1-based = 0-based index + 1 everywhere; build_backend_request starts fresh at 1 + variables_per_sample(), and
-variables_per_sample / grid_variables / variables_per_trial are the documented sums.
+variables_per_sample / grid_variables / variables_per_trial are the documented sums.  (memo-key) a memo table of the Block family is keyed by
+every parameter its method reads (the parameter itself or a copy / constant shift of it, not a projection).
 """
 NOT_DECIDED = "the numeric offsets for a concrete design, excluded-level handling in factor_variables_for_trial, and window shifts of derivations (C01/C15)."
 
 R = "C14.layout"
 SIMPLE = "[_b0 for _b0 in self.act_design if not(_b0.has_complex_window)]"
 PREV = "self._get_previous_trials_variable_count(f, %s)"
+
+
+def rule_memo_key(ctx, R="C14.memo-key"):
+    """A memo table of the Block family (an attribute dictionary that one method both looks up and stores into) must be keyed by
+    everything the cached value depends on: every parameter the method reads has to occur in the key -- itself, or a local that
+    is only ever a copy / a constant shift of it.  A projection of a parameter (a call result, an attribute) identifies a class of
+    arguments, not the argument, and makes two different computations share one entry."""
+    blockbase = ctx.repo.cls("block:Block")
+    n = 0
+    for c in [blockbase] + list(blockbase.all_subclasses()):
+        for name, m in sorted(c.methods.items()):
+            if isinstance(m.node, ast.Lambda):
+                continue
+            loads, stores = {}, {}
+            for x in ast.walk(m.node):
+                if isinstance(x, ast.Subscript) and dotted(x.value) and dotted(x.value).startswith("self.") and isinstance(x.ctx, ast.Store):
+                    stores.setdefault(dotted(x.value), []).append(x.slice)
+                # a lookup that tolerates absence marks a memo table: table.get(key) / key in table
+                if isinstance(x, ast.Compare) and len(x.ops) == 1 and isinstance(x.ops[0], (ast.In, ast.NotIn)) and dotted(x.comparators[0]) and \
+                        dotted(x.comparators[0]).startswith("self."):
+                    loads.setdefault(dotted(x.comparators[0]), []).append(x.left)
+                if isinstance(x, ast.Call) and call_attr(x) == "get" and dotted(x.func.value) and dotted(x.func.value).startswith("self.") and x.args:
+                    loads.setdefault(dotted(x.func.value), []).append(x.args[0])
+            tables = sorted(set(loads) & set(stores))
+            if not tables:
+                continue
+            params = [a.arg for a in m.node.args.posonlyargs + m.node.args.args if a.arg != "self"]
+            read = {x.id for x in ast.walk(m.node) if isinstance(x, ast.Name) and isinstance(x.ctx, ast.Load) and x.id in params}
+            # what a local stands for: the parameters it copies (x = p, x += const, x -= const); None when it is anything else
+            stands = {p: {p} for p in params}
+            changed = True
+            while changed:
+                changed = False
+                for st in statements(m.node):
+                    if isinstance(st, ast.Assign) and len(st.targets) == 1 and isinstance(st.targets[0], ast.Name):
+                        t = st.targets[0].id
+                        if t in params:
+                            continue
+                        if isinstance(st.value, ast.Name) and st.value.id in stands and stands[st.value.id] is not None:
+                            new = (stands.get(t) or set()) | stands[st.value.id] if stands.get(t, set()) is not None else None
+                        else:
+                            new = None
+                        if t not in stands or stands[t] != new:
+                            if not (t in stands and stands[t] is None):
+                                stands[t] = new
+                                changed = True
+            for tb in tables:
+                for key in loads[tb] + stores[tb]:
+                    k = key
+                    if isinstance(k, ast.Name):
+                        defs = [st.value for st in statements(m.node) if isinstance(st, ast.Assign) and len(st.targets) == 1 and dotted(st.targets[0]) == k.id]
+                        if len(defs) == 1:
+                            k = defs[0]
+                    covered = set()
+                    parts = k.elts if isinstance(k, ast.Tuple) else [k]
+                    for e in parts:
+                        if isinstance(e, ast.Name) and stands.get(e.id):
+                            covered |= stands[e.id]
+                    n += 1
+                    missing = sorted(read - covered)
+                    ctx.check(not missing, R, m, "%s[%s]" % (tb, ast.unparse(k)), "the memo key names every parameter the method reads",
+                              "%s.%s caches in %s under the key `%s`, which does not contain the parameter(s) %s the cached value is computed from (only a "
+                              "projection of them, or nothing): calls with different %s share one entry" % (
+                                  c.name, name, tb, ast.unparse(k), ", ".join("`%s`" % p for p in missing), " / ".join(missing)), key)
+    ctx.require(n >= 2, "memo tables of the Block family: %d keyed accesses found (_cached_previous_count confirmed by hand)" % n)
 
 
 def check(ctx):
@@ -179,6 +245,7 @@ def check(ctx):
     fact(ctx, R, f, "encode_combination", Facts(f).returns(), ["tuple([self._encode_variable(_b0, _b1, trial) for (_b0, _b1) in combination.items()])"],
          "a combination is the tuple of its members' variables at that trial")
 
+    rule_memo_key(ctx)
     mod = sys.modules[__name__]
     control(ctx, mod, "complex branch of _encode_variable uses the grid stride",
             lambda s: variants.in_function(s, "sweetpea/_internal/block.py", "Block._encode_variable",
@@ -186,4 +253,10 @@ def check(ctx):
     control(ctx, mod, "fresh starts inside the layout",
             lambda s: variants.in_function(s, "sweetpea/_internal/block.py", "Block.build_backend_request",
                                            "fresh = 1 + self.variables_per_sample()", "fresh = self.variables_per_sample()"), "C14.layout")
+    control(ctx, mod, "previous-trial memo keyed by a projection of the factor",
+            lambda s: variants.in_function(variants.in_function(s, "sweetpea/_internal/block.py", "Block._get_previous_trials_variable_count",
+                                                                "key = (f, t)", "key = (self.sustain_count(f), t)"),
+                                           "sweetpea/_internal/block.py", "Block._get_previous_trials_variable_count",
+                                           "self._cached_previous_count[(f, t)] = count", "self._cached_previous_count[(self.sustain_count(f), t)] = count"), "C14.memo-key")
     ctx.min_instances("C14.layout", 45)
+    ctx.min_instances("C14.memo-key", 2)
